@@ -35,6 +35,7 @@ func runC16(r *Run) {
 		nW = 1
 	}
 	fireAfter := t.Draw(12)
+	r.DrawYields()
 	peerDataAfterClose := t.Pct(30)
 	msgLen := []int{0, 10, 600, 3000, 9000}[t.Draw(5)]
 	useWriter := t.Draw(2) == 1
